@@ -68,6 +68,64 @@ class ClassInfo:
                         self.static.add(b.name)
             elif isinstance(b, ast.AnnAssign) and isinstance(b.target, ast.Name):
                 self.fields[b.target.id] = b.annotation
+        self.record_kind: Optional[str] = None       # "namedtuple" | "dataclass": a record whose constructor just stores its arguments
+        self.synth_init: Optional[ast.FunctionDef] = None
+        self.record_fields: List[Tuple[str, Optional[ast.AST]]] = []
+        self._detect_record()
+
+    def _detect_record(self) -> None:
+        node = self.node
+        kind = None
+        if any(b.split(".")[-1] == "NamedTuple" for b in self.bases):
+            kind = "namedtuple"
+        for d in node.decorator_list:
+            name = ast.unparse(d.func if isinstance(d, ast.Call) else d)
+            if name.split(".")[-1] == "dataclass":
+                if isinstance(d, ast.Call) and any(k.arg == "init" and isinstance(k.value, ast.Constant) and k.value.value is False for k in d.keywords):
+                    return
+                kind = "dataclass"
+        if kind is None or any(m in self.methods for m in ("__init__", "__new__", "__post_init__")):
+            return
+        fields = []
+        for b in node.body:
+            if isinstance(b, ast.AnnAssign) and isinstance(b.target, ast.Name):
+                if "ClassVar" in ast.unparse(b.annotation):
+                    continue
+                dflt = b.value
+                if kind == "dataclass" and isinstance(dflt, ast.Call) and ast.unparse(dflt.func).split(".")[-1] == "field":
+                    kw = {k.arg: k.value for k in dflt.keywords}
+                    if isinstance(kw.get("init"), ast.Constant) and kw["init"].value is False:
+                        continue
+                    if "default" in kw:
+                        dflt = kw["default"]
+                    elif "default_factory" in kw:
+                        dflt = ast.Call(func=kw["default_factory"], args=[], keywords=[])
+                    else:
+                        dflt = None
+                fields.append((b.target.id, dflt))
+        if not fields:
+            return
+        self.record_kind, self.record_fields = kind, fields
+        # the constructor the interpreter generates, as source the engines can read
+        args = ast.arguments(posonlyargs=[], args=[ast.arg(arg="self")] + [ast.arg(arg=f, annotation=self.fields.get(f)) for f, _d in fields],
+                             kwonlyargs=[], kw_defaults=[], defaults=[copy_node(d) for _f, d in fields if d is not None])
+        if any(d is None for _f, d in fields[len(fields) - len(args.defaults):]):
+            return      # a field without default after one with a default: not a valid record, leave it alone
+        body = [ast.Assign(targets=[ast.Attribute(value=ast.Name(id="self", ctx=ast.Load()), attr=f, ctx=ast.Store())],
+                           value=ast.Name(id=f, ctx=ast.Load()), lineno=node.lineno) for f, _d in fields]
+        fn = ast.FunctionDef(name="__init__", args=args, body=body, decorator_list=[], returns=None, type_comment=None, type_params=[])
+        ast.copy_location(fn, node)
+        for x in ast.walk(fn):
+            if isinstance(x, (ast.expr, ast.stmt, ast.arg)) and not hasattr(x, "lineno"):
+                ast.copy_location(x, node)
+        ast.fix_missing_locations(fn)
+        fn.synthesised = True
+        self.synth_init = fn        # kept apart from `methods` (what the class itself defines)
+
+
+def copy_node(n: ast.AST) -> ast.AST:
+    import copy as _copy
+    return _copy.deepcopy(n)
 
 
 class FuncInfo:
@@ -163,6 +221,10 @@ class Repo:
                     fi = FuncInfo(m, n.name, fn, static=mn in ci.static)
                     self.funcs[fi.qn] = fi
                     self.method_index[mn].append(n.name)
+                if ci.synth_init is not None:
+                    self.synth_inits = getattr(self, "synth_inits", {})
+                    self.synth_inits[n.name] = FuncInfo(m, n.name, ci.synth_init)
+                    self.funcs[self.synth_inits[n.name].qn] = self.synth_inits[n.name]
             elif isinstance(n, ast.FunctionDef):
                 m.defs[n.name] = ("func", n)
                 fi = FuncInfo(m, None, n)
@@ -266,6 +328,8 @@ class Repo:
             if meth in self.classes[c].methods:
                 ci = self.classes[c]
                 return self.funcs[f"{self.mods[ci.mod].short}::{c}.{meth}"]
+            if meth == "__init__" and c in getattr(self, "synth_inits", {}):
+                return self.synth_inits[c]      # the constructor the interpreter generates for a NamedTuple / dataclass
         return None
 
     def is_property(self, cname: str, attr: str) -> bool:
